@@ -15,6 +15,7 @@ import (
 	"verifharness/internal/ftref"
 	"verifharness/internal/gen"
 	"verifharness/internal/hbfont"
+	"verifharness/internal/props/c11"
 	"verifharness/internal/vrun"
 )
 
@@ -233,8 +234,22 @@ func (m *monitor) unitsFor(fi *faceInfo, nRandom int) []unit {
 	return us
 }
 
+// synthFaces registers the harness-built fonts with well-formed but unusual character
+// maps (c11.WellFormedCmapFonts) and returns their references.
+func synthFaces() []corpus.FaceRef {
+	var out []corpus.FaceRef
+	for _, nf := range c11.WellFormedCmapFonts() {
+		f := corpus.RegisterMem("synth/cmap/"+nf.Name+".ttf", nf.Data)
+		if fs, err := f.Fonts(); err == nil && len(fs) == 1 {
+			out = append(out, corpus.FaceRef{File: f, Index: 0})
+		}
+	}
+	return out
+}
+
 func Main() {
 	run := vrun.Start("C10")
+	synth := synthFaces()
 	m := &monitor{run: run, stats: map[string]int64{}, examples: map[string][]string{}}
 	nw := runtime.GOMAXPROCS(0)
 	for i := 0; i < nw; i++ {
@@ -309,6 +324,12 @@ func Main() {
 				break
 			}
 		}
+	}
+	// harness-built character maps: every run, both tiers
+	for _, fr := range synth {
+		fi := classify(fr, 1)
+		chosen = append(chosen, fi)
+		run.Cover("faces/synthetic-cmap")
 	}
 	nRandom := run.Pick(2, 5)
 	var units []unit
